@@ -48,13 +48,24 @@ deriving Repr, DecidableEq, Inhabited
 
 def pad (l : List Bytes) (cap : Nat) : List Bytes := l ++ List.replicate (cap - l.length) []
 
-/-- heap after package `init`: norm `i` owns arrays `2i` (category) and `2i+1` (type), of the
-capacities the YAML decoder produced. -/
+/-- backing arrays of the tables: norm `i` owns arrays `2i` (category) and `2i+1` (type), of
+the capacities the YAML decoder produced. -/
+def initArrs : List Norm → List (List Bytes)
+  | [] => []
+  | n :: r => pad n.ecsCategory n.catCap :: pad n.ecsType n.typCap :: initArrs r
+
+def initCatSlices (i : Nat) : List Norm → List Slice
+  | [] => []
+  | n :: r => ⟨2 * i, n.ecsCategory.length, n.catCap⟩ :: initCatSlices (i + 1) r
+
+def initTypSlices (i : Nat) : List Norm → List Slice
+  | [] => []
+  | n :: r => ⟨2 * i + 1, n.ecsType.length, n.typCap⟩ :: initTypSlices (i + 1) r
+
+/-- heap after package `init`. -/
 def Heap.init (T : Tables) : Heap :=
-  { msgs := []
-    arrs := T.norms.flatMap (fun n => [pad n.ecsCategory n.catCap, pad n.ecsType n.typCap])
-    catSlices := T.norms.zipIdx.map (fun p => ⟨2 * p.2, p.1.ecsCategory.length, p.1.catCap⟩)
-    typSlices := T.norms.zipIdx.map (fun p => ⟨2 * p.2 + 1, p.1.ecsType.length, p.1.typCap⟩) }
+  { msgs := [], arrs := initArrs T.norms, catSlices := initCatSlices 0 T.norms,
+    typSlices := initTypSlices 0 T.norms }
 
 def Heap.newMsg (h : Heap) (v : View) : Heap × Nat :=
   ({ h with msgs := h.msgs ++ [{ typ := v.typ, seq := v.seq, ts := v.ts, parse := ⟨v.data, v.tags⟩, cache := none }] },
@@ -157,24 +168,27 @@ def normChoice (T : Tables) (views : List View) : Option (Nat × Option Nat) :=
       some (ni, extraNorm ni (syscallNormOf T e))
   | _ => none
 
+def catSliceAt (h : Heap) (i : Nat) : Slice := (h.catSlices[i]?).getD nilSlice
+def typSliceAt (h : Heap) (i : Nat) : Slice := (h.typSlices[i]?).getD nilSlice
+
+/-- `event.ECS.Event.Category = norm.ECS.Category.Values` (an alias of the table's slice) and,
+with an additional syscall normalisation, `append(…, syscallNorm.ECS.Category.Values...)`;
+the same for `Type`. -/
+def ecsSlices (h1 : Heap) (nc : Option (Nat × Option Nat)) : Heap × Slice × Slice :=
+  match nc with
+  | none => (h1, nilSlice, nilSlice)
+  | some (ni, none) => (h1, catSliceAt h1 ni, typSliceAt h1 ni)
+  | some (ni, some si) =>
+    let a := appendSlice h1 (catSliceAt h1 ni) (readSlice h1 (catSliceAt h1 si))
+    let b := appendSlice a.1 (typSliceAt a.1 ni) (readSlice a.1 (typSliceAt a.1 si))
+    (b.1, a.2, b.2)
+
 /-- `CoalesceMessages` on message objects. -/
 def coalesceH (T : Tables) (h : Heap) (ids : List Nat) : Heap × Outcome EventH :=
   let views := ids.map (viewAt h)
   let pv := kept ids views
   let h1 := fill h (touched pv)
-  -- event.ECS.Event.Category = norm…Values ; append(…, syscallNorm…Values...)
-  let r : Heap × Slice × Slice :=
-    match normChoice T views with
-    | none => (h1, nilSlice, nilSlice)
-    | some (ni, extra) =>
-      let c0 := (h1.catSlices[ni]?).getD nilSlice
-      let t0 := (h1.typSlices[ni]?).getD nilSlice
-      match extra with
-      | none => (h1, c0, t0)
-      | some si =>
-        let a := appendSlice h1 c0 (readSlice h1 ((h1.catSlices[si]?).getD nilSlice))
-        let b := appendSlice a.1 t0 (readSlice a.1 ((a.1.typSlices[si]?).getD nilSlice))
-        (b.1, a.2, b.2)
+  let r := ecsSlices h1 (normChoice T views)
   match coalesce T views with
   | .ok e =>
     (r.1, .ok { core := e, pathRefs := pathRefsOf pv,
